@@ -1,18 +1,25 @@
 """C18 -- package members are private unless capitalised.
 
-spec: Packages (PART 1: Visible(tree, path) -- the statement; PART 2: the walkers of
-      stack.go / hashutils.go / functions.go with switches for their hand-off defects)
+spec: Packages (PART 1: Visible(tree, path) -- the statement, also for a dot path that outside code
+      hands to code of the package as a value (ApplyRel) and for the dot paths of the package's own
+      code (ApplyIn); PART 2: the walkers of stack.go / hashutils.go / functions.go with switches for
+      their hand-off defects, and the dereference of a relative dot path where the receiving code runs)
 TLC:  MCPackages enumerates every (tree, path, route, alias kind, alias prefix) up to the bounds
       as one transition each and checks that the walkers without the defects refine the
       statement (result and tree afterwards), that the recursive walk agrees with the
       declarative reading of the statement, that the verdict never depends on alias or route,
-      and that no outside access changes a member behind a private hop; with a defect switch
-      set the refinement must be refuted (self-test, thorough tier)
+      that no outside access changes a member behind a private hop, and that the dot paths of the
+      code of a package reach all its own members; with a defect switch set the refinement must be
+      refuted (self-test, thorough tier)
 bind: the harness builds package trees on the real interpreter (def / := / import / source),
       reads, calls and assigns members from outside through 9 read routes, 5 write routes and
       8 alias kinds, and from inside through accessor functions defined in the package bodies
-      (every write is read back from inside); TLC validates every recorded value / error and
-      the tree after every step against Packages!Apply (PackagesTrace)
+      (every write is read back from inside), also where those accessors use dot paths themselves
+      (.m, m.key as operand of a builtin, as argument of a function, as target of set / = / infix =,
+      with and without globals of the same names); assigns dot paths as one of several targets; hands
+      dot paths written outside to functions of the packages as arguments (call, alias, apply, map) and
+      as data (callback results, array / list / hash elements); TLC validates every recorded value /
+      error and the tree after every step against Packages!Apply (PackagesTrace)
 """
 import os
 import vlib, flow
@@ -57,14 +64,24 @@ def _coverage(cases):
     combos = set()
     tally = {"outside_reads": 0, "outside_writes": 0, "inside_calls": 0, "denied_private": 0,
              "denied_other_error": 0, "allowed": 0, "lowercase_key_of_visible_hash_reached": 0,
-             "nonletter_member_reached": 0}
-    writes = ("infix", "prefix", "set", "infixdef", "hset")
+             "nonletter_member_reached": 0, "inside_dot_path_uses": 0, "dot_paths_handed_in_as_argument": 0,
+             "dot_paths_handed_in_as_data": 0, "handed_in_denied": 0, "handed_in_value": 0}
+    writes = ("infix", "prefix", "set", "infixdef", "hset", "multi1", "multi2")
+    argroutes = ("arg", "apply", "map")
     for c in cases.values():
         for e in c["evs"]:
             evs += 1
             if e["op"] == "in":
                 tally["inside_calls"] += 1
-                combos.add(("in", e["mode"], e["style"], len(e["pp"]), e["res"][0]))
+                if e.get("form"):
+                    tally["inside_dot_path_uses"] += 1
+                combos.add(("in", e["mode"], e["style"], e.get("form", ""), bool(c.get("decoy")), len(e["pp"]), e["res"][0]))
+                continue
+            if e["op"] == "rel":
+                tally["dot_paths_handed_in_as_argument" if e["rt"] in argroutes else "dot_paths_handed_in_as_data"] += 1
+                tally["handed_in_value" if e["res"][0] == "val" else "handed_in_denied"] += 1
+                sh = _shape(c["tree"], e["p"])[e["c"]:]
+                combos.add(("rel", e["rt"], e["fs"], len(e["fp"]) - e["c"], sh, e["res"][0]))
                 continue
             sh = _shape(c["tree"], e["p"])
             res = e["res"]
@@ -93,7 +110,8 @@ def run():
         runs = [dict(module="MCPackages.tla", cfg="MCPackagesDeep.cfg", timeout=2400),
                 dict(module="MCPackages.tla", cfg="MCPackagesSteps.cfg"),
                 dict(module="MCPackages.tla", cfg="MCPackagesD1.cfg", expect="violation"),
-                dict(module="MCPackages.tla", cfg="MCPackagesD2.cfg", expect="violation")]
+                dict(module="MCPackages.tla", cfg="MCPackagesD2.cfg", expect="violation"),
+                dict(module="MCPackages.tla", cfg="MCPackagesD3.cfg", expect="violation")]
     else:
         runs = [dict(module="MCPackages.tla", cfg="MCPackagesQuick.cfg")]
     flow.mc_runs(out, runs)
@@ -117,7 +135,14 @@ def run():
                 "every path x every route through the package's own name, and through each of 7 other alias kinds "
                 "(thorough: every route x every alias prefix; quick: a rotation of 3 read and 2 write routes per path); "
                 "two trees with packages inside hashes inside packages and with names shared by members and keys: everything; "
-                "seeded random trees (non-ASCII names, random shapes); construction by def, :=, import and source",
+                "seeded random trees (non-ASCII names, random shapes); construction by def, :=, import and source. "
+                "On the same trees: every path as either target of an assignment to two targets (alias kinds in rotation); "
+                "every package's own code using every member through a dot path (.m, m.key; operand of a builtin / argument "
+                "of a function / set, prefix and infix assignment in rotation; with and without globals of the same names); "
+                "every package as the owner of a dot path of up to 3 names written outside and handed to a function of that "
+                "package or of a package nested in it, as an argument (call through a dot path, an alias, a function value, the "
+                "registry; apply; map) and as data (value returned by a callback and bound by let / def / used as operand / "
+                "passed on; element of an array, a list, a hash), routes in rotation (thorough: all)",
         "cases": len(cases),
         "outcome_tally": tally,
         "tlc_states": out.states, "tlc_transitions": out.transitions,
@@ -129,9 +154,13 @@ def run():
         "value, function and hash MEMBERS of a package); the tally lowercase_key_of_visible_hash_reached counts how often the code lets one through",
         "a first rune that is not a letter (_x) is not judged (the statement speaks of lower-case letters and capitalised names); "
         "reading or overwriting a nested package value itself under a non-capitalised name is not judged (the statement only says it may be traversed)",
-        "a dot symbol passed to a user function is combined only with global aliases: with a let-bound or parameter alias the callee "
-        "resolves it in its own scope ('symbol not found'), which is argument evaluation / scoping, not visibility; for the same reason "
-        "accessor functions inside packages do not use a dot path as the operand of a builtin",
+        "a dot path written OUTSIDE and passed to a global user function (route uarg) is combined only with global aliases: with a "
+        "let-bound or parameter alias the callee resolves it in its own scope ('symbol not found'), which is argument evaluation / "
+        "scoping, not visibility",
+        "a relative dot path written outside (.m, m.key) and handed to code of a package is judged only where it names a lower-case "
+        "value / function / hash member (must fail); where it names something capitalised the statement does not say that a path "
+        "written outside the package has to reach into it (an error and the member's value are both admitted)",
+        "an assignment to several targets that names a private member may report success as long as the member keeps its value",
         "the upper/lower-case classification covers ASCII letters and the non-ASCII letters the generator uses (A-umlaut, E-acute, Delta and their lower-case forms)",
         "TLC 1.8.0; PART 2 of Packages.tla mirrors stack.go/hashutils.go/functions.go by hand (its refinement check is a design audit; "
         "verdicts come only from the recorded executions)",
